@@ -9,7 +9,7 @@ NOTES = 'Exit codes of ./check: 0 all obligations discharged; 1 VIOLATION (defin
 
 PENDING = 'check not built yet in this session (planned in DESIGN.md section 5)'
 NOT_APPLICABLE = {
-    'C01': PENDING, 'C02': PENDING, 'C03': PENDING, 'C05': PENDING, 'C06': PENDING, 'C07': PENDING, 'C08': PENDING,
+    'C02': PENDING, 'C03': PENDING, 'C05': PENDING, 'C06': PENDING, 
     'C09': PENDING, 'C10': PENDING, 'C14': PENDING, 'C15': PENDING, 'C16': PENDING, 'C18': PENDING,
     'C11': 'numerical accuracy of a 1000-bin f32 convolution against an exact enumeration over K^M words: floats are uninterpreted in Verus and the convolution is out of reach of CBMC; no contract within reach expresses or decides it (DESIGN.md 5/C11)',
     'C12': 'HashMap<i64,f64> dynamic programming bounded by exact tail probabilities of the true score distribution: a protocol-level real-number argument (TFM-PVALUE paper), not expressible over the real code with Verus (opaque floats, no HashMap iteration specs) or Kani (unbounded loops over float maps) (DESIGN.md 5/C12)',
@@ -18,6 +18,24 @@ NOT_APPLICABLE = {
 }
 
 CHECKS = {
+    'C01': {
+        'text': 'Unbounded deductive proof (Verus) of the generic scoring pipeline on verbatim bodies: Score::{score_rows_into, score_into, score} (generic element type), StripedScores::{resize, offset, iter, Index}, scores::Iter::{new, get, len}, ScoringMatrix::score_position, and the striping units of C04; composed by machine-checked lemmas (lemma_layout, lemma_gsum_is_lsum, theorem_c01) into the property statement: exactly L-M+1 values, value i = left-to-right sum of matrix[j][sequence[i+j]], for all lengths/widths/column counts/row sub-ranges. The SSE2/AVX2 kernels and the dispatcher arms are covered only by bounded Kani stand-ins (thorough tier, never counted as discharged).',
+        'design_ref': 'DESIGN.md section 5, C01',
+        'note': 'Trusted: Verus/Z3; A-F0/A-F1 (f32 += total and functional); GenericArray ~ [T;N]; AsRef views; extraction rules R1/R2/W/R7 logged in evidence. NOT proved: SIMD kernels (bounded only), NEON (not compiled), numeric closeness to the exact real sum (holds by construction of the contract, which fixes the f32 summation order).',
+        'technique': 'contract-based deductive verification (Verus, real bodies extracted per run) + lemmas over contracts',
+    },
+    'C07': {
+        'text': 'Unbounded deductive proof (Verus) of Maximum::{argmax, max} and Threshold::threshold (default impls, generic element type) on verbatim bodies: None exactly on an empty matrix; the designated cell is >= every cell; max is that cell value; threshold returns exactly the cells >= t, each once. The order hypothesis is proved for u8 and assumed for NaN-free f32. AVX2/SSE2 kernels: bounded Kani stand-ins only.',
+        'design_ref': 'DESIGN.md section 5, C07',
+        'note': 'Trusted: Verus/Z3; A-F2 (NaN-free f32 cells are totally pre-ordered by >=); extraction rules R1, T1, CL logged. NOT proved: SIMD max/argmax (bounded only); the -inf padding clause needs float facts (A-F3) and is not claimed.',
+        'technique': 'contract-based deductive verification (Verus, real bodies extracted per run)',
+    },
+    'C08': {
+        'text': 'Proof (Verus) of the integer half only: the generic u8 kernel and DiscreteMatrix::score_position compute exactly the sum of the discretised cells when that sum fits in a byte; the no-overflow side condition is an explicit precondition (its violation by real matrices is finding D5). The float half (ceil/floor rounding in to_discrete/scale is conservative) is assumed (A-F4), so the "never lose a hit" consequence is proved only relative to that assumption.',
+        'design_ref': 'DESIGN.md section 5, C08',
+        'note': 'Trusted: Verus/Z3; A-F4 (f32 ceil/floor/division treated as mathematical). AVX2 saturating kernel: bounded Kani stand-in only.',
+        'technique': 'contract-based deductive verification (Verus, real bodies extracted per run)',
+    },
     'C19': {
         'text': 'Unbounded deductive proof (Verus) on the verbatim bodies of DenseMatrix::{new, with_capacity, resize, reserve, rows, columns, capacity, Index/IndexMut<usize>, Index/IndexMut<MatrixCoordinates>} with the real struct layout: the representation invariant is established by constructors and preserved by every operation from an arbitrary pre-state (hence for all histories); resize keeps old rows over the whole view and fills new rows with the default; index_mut changes exactly one row/cell (frame). Layout facts (stride, alignment) and the unsafe constructors are checked by Kani (complete for the listed (T,C) instances / bounded for unsafe code).',
         'design_ref': 'DESIGN.md section 5, C19',
